@@ -1025,6 +1025,16 @@ func (w *world) judge(x *common.Exec, final map[string]map[string]string, finalT
 		if timedOut && sr.sub.StallNs == 0 && sr.sub.SlowNs == 0 && strings.Contains(fmt.Sprint(sr.recvErr), "timed out") {
 			x.Oblige(1)
 			x.Violate("C08/prompt-reader-timed-out", "a subscriber that never stalled was terminated with %v\n%s  writers:\n%s", sr.recvErr, describe(sr), w.history())
+			if sc.ACL != nil {
+				x.Violate("C07/authorised-subscriber-terminated", "with an ACL installed, a subscriber that never stalled was terminated with %v: what it is authorised for is no longer delivered\n%s", sr.recvErr, describe(sr))
+			}
+			// the same event seen from the subscriber's side: it no longer gets what
+			// its mode promises (later changes / later polls)
+			if sr.sub.Mode == "stream" {
+				x.Violate("C04/prompt-reader-timed-out", "a STREAM subscriber that never stalled was terminated with %v and receives no further changes\n%s", sr.recvErr, describe(sr))
+			} else {
+				x.Violate("C05/prompt-reader-timed-out", "a %s subscriber that never stalled was terminated with %v\n%s", sr.sub.Mode, sr.recvErr, describe(sr))
+			}
 			return
 		}
 		switch sr.sub.Mode {
